@@ -217,5 +217,5 @@ def cases(draw, **kw):
 def jobs(tier):
     if tier == 'quick':
         return [Job('daqmx_files', 'hyp', lambda: cases(), n=1800)]
-    return [Job('daqmx_files', 'hyp', lambda: cases(), n=120000),
-            Job('wider', 'hyp', lambda: cases(max_channels=6, max_len=12, max_chunks=4, max_width=32), n=20000)]
+    return [Job('daqmx_files', 'hyp', lambda: cases(), n=45000),
+            Job('wider', 'hyp', lambda: cases(max_channels=6, max_len=12, max_chunks=4, max_width=32), n=6000)]
